@@ -134,6 +134,17 @@ pub(crate) fn validate_submit(
     None
 }
 
+/// Resource requests are validated by the client, but the server cannot rely on it.
+/// An invalid request (e.g. zero amount of a resource) would crash the scheduler.
+fn validate_resource_requests(task_desc: &JobTaskDescription) -> tako::Result<()> {
+    match task_desc {
+        JobTaskDescription::Array { resource_rq, .. } => resource_rq.validate(),
+        JobTaskDescription::Graph { resource_rqs, .. } => {
+            resource_rqs.iter().try_for_each(|rqv| rqv.validate())
+        }
+    }
+}
+
 #[allow(clippy::await_holding_refcell_ref)] // Disable lint as it does not work well with drop
 pub(crate) fn handle_submit(
     state_ref: &StateRef,
@@ -141,6 +152,10 @@ pub(crate) fn handle_submit(
     mut message: SubmitRequest,
 ) -> ToClientMessage {
     log_submit_request(&message);
+
+    if let Err(e) = validate_resource_requests(&message.submit_desc.task_desc) {
+        return ToClientMessage::Error(format!("Invalid resource request: {e}"));
+    }
 
     let mut state = state_ref.get_mut();
     if let Some(err) = validate_submit(
